@@ -282,6 +282,16 @@ class SimBackend(object):
                                                  0.99999999])
                     else:
                         vals[v.name] = r.choice([0.0, -0.0])
+            # the variable being optimised may also come back a hair off, on
+            # the side that keeps the true optimum feasible for the bound the
+            # repository adds afterwards (2.9999999 when maximised, 3.0000001
+            # when minimised); the other side breaks the unchanged tree and
+            # is the recorded assumption of DESIGN.md 2.3
+            if len(C.obj) == 1 and r.random() < 0.5:
+                i, a = C.obj[0]
+                if i not in projset and C.vs[i].cat == 'Integer':
+                    direction = -1.0 if (a > 0) == (C.sense < 0) else 1.0
+                    vals[C.vs[i].name] = float(point[i]) + direction * 1e-7
         lp.assignVarsVals(vals)
 
     def _to_M(self, proj, pairs, n1):
